@@ -672,12 +672,8 @@ func calculateTextEditRange(content string, pos protocol.Position, ctxType Compl
 			startByte = findCommodityStart(line, byteCol)
 		}
 	case ContextPayee:
-		spaceIdx := strings.Index(line[:byteCol], " ")
-		if spaceIdx != -1 {
-			startByte = spaceIdx + 1
-			for startByte < byteCol && (line[startByte] == ' ' || line[startByte] == '*' || line[startByte] == '!') {
-				startByte++
-			}
+		if start := payeeStart(line[:byteCol]); start != -1 {
+			startByte = start
 		}
 	default:
 		return nil
@@ -694,6 +690,26 @@ func calculateTextEditRange(content string, pos protocol.Position, ctxType Compl
 		Start: protocol.Position{Line: pos.Line, Character: uint32(startChar)},
 		End:   pos,
 	}
+}
+
+// payeeStart returns the byte offset at which the description starts in s, a transaction
+// header up to the cursor: behind the date, the status marks and a complete (code).
+// It returns -1 while the date has not been ended by a blank.
+func payeeStart(s string) int {
+	i := strings.Index(s, " ")
+	if i == -1 {
+		return -1
+	}
+	for i < len(s) && (s[i] == ' ' || s[i] == '*' || s[i] == '!') {
+		i++
+	}
+	if i < len(s) && s[i] == '(' {
+		if end := strings.Index(s[i:], ")"); end != -1 {
+			for i += end + 1; i < len(s) && s[i] == ' '; i++ {
+			}
+		}
+	}
+	return i
 }
 
 // postingAccountStart returns the byte offset at which the account name starts in s, a
@@ -755,11 +771,11 @@ func extractQueryText(content string, pos protocol.Position, ctxType CompletionC
 		return beforeCursor[postingAccountStart(beforeCursor):]
 
 	case ContextPayee:
-		_, after, found := strings.Cut(beforeCursor, " ")
-		if !found {
+		start := payeeStart(beforeCursor)
+		if start == -1 {
 			return ""
 		}
-		return strings.TrimLeft(after, " ")
+		return beforeCursor[start:]
 
 	case ContextCommodity:
 		if after, found := strings.CutPrefix(beforeCursor, directiveCommodity); found {
